@@ -325,12 +325,14 @@ def save_hdf5(h5path, indent, user_rate, user_name, user_comment, h5mode="a"):
         data = h5.require_group("data")
         dhash = hash_file(indent.path)
         if dhash not in data:
-            meas = data.create_dataset(
+            data.create_dataset(
                 dhash,
                 data=np.fromfile(str(indent.path), dtype=bool),
                 **dkw
             )
-            meas.attrs["path"] = str(indent.path)
+        if "path" not in data[dhash].attrs:
+            # (also repairs raw data left by an interrupted save)
+            data[dhash].attrs["path"] = str(indent.path)
         # store indentation data along with the user rate
         ana = h5.require_group("analysis")
         idd = "{}_{}".format(dhash, indent.enum)
